@@ -167,8 +167,10 @@ PROPS["C06"] = dict(
 
 
 def _c15_out_kind(o):
-    if o.startswith(("ok ", "err ", "absent")):
-        return "payload " + " ".join(o.split(" ")[:2])
+    if o.startswith("ok "):
+        return "payload ok" + (" (no replicas)" if o.endswith(":-") else "")
+    if o.startswith(("err ", "absent")):
+        return "payload " + o
     if o and o[0].isdigit():
         return "exh digest"
     if "panic" in o:
@@ -213,15 +215,26 @@ def _c13_out_kind(o):
 
 
 PROPS["C13"] = dict(
-    level_text="WORK IN PROGRESS",
-    level_note="WORK IN PROGRESS",
+    level_text="Theorems (Props/C13.lean) prove for EVERY schedule (any list of events timerFires / pop i / send i / attemptDone i / complete i outcome; impossible events are no-ops, ties between the timer and a completion are both orders) of the select!-loop state machine of speculative_execution::execute behind the idempotence gate of run_request_no_side_effects, for every policy and plan: a non-idempotent request (or one without a policy) has exactly one execution, at most one running fiber and at most one attempt on the wire at every point (nonidempotent_single_fiber); at most 1+max executions are started, never one after a fiber reported the plan exhausted (started_le, no_start_after_exhaustion); the shared plan hands every target out at most once, in plan order, so the attempts on the wire are on pairwise distinct targets (handed_is_plan_prefix, distinct_targets, outstanding_attempts_distinct); the returned value is the first consumed result that is a success or definitive error, otherwise the last error (EmptyPlan if none) and then only when nothing runs and nothing may be started, and conversely it has returned as soon as that holds (result_spec, first_real_answer_wins, otherwise_last_error, returns_when_exhausted); a not-yet-returned call always has a running fiber or an armed timer that will start one (never_waits_on_nothing - the all-branches-disabled state in which select! would panic and the useless-timer-only state are unreachable) and every fair infinite schedule returns after at most 4+3*max select! branches (always_returns, branches_bounded); can_be_ignored is stated outright over the whole error universe (canBeIgnored_err_iff). The model is tied to the code by a differential run in virtual time (tokio paused clock): the real execute over scripted fibers (exhaustive delay x outcome grids incl. ties, 1-5 fibers, max 0..4) and the real run_request_no_side_effects (gate + SharedPlan + real fibers, scripted retry policy) over synthetic targets, with a model-independent oracle.",
+    level_note="Trusted: Lean kernel + {propext, Classical.choice, Quot.sound}; hand-written model Model/Speculative.lean (tie = differential harness through the cfg(scylla_verif) pass-throughs speculative::execute / can_be_ignored / exec::run_request). Partial: futures::select!'s pseudo-random choice among ready branches is the model's tie nondeterminism (the model driver explores every order of simultaneous wake-ups and acts as a checker there); tokio's timer and FuturesUnordered are trusted to deliver wake-ups in virtual-time order; a fiber is abstract in the theorems (it pops targets, has at most one attempt outstanding, eventually completes - its retry logic is C06); Session-level glue (how is_idempotent and the policy reach RequestExecutionParams) and real sockets are not exercised (no mock-node end-to-end run).",
     lean_modules=["ScyllaVerif.Props.C13"],
     rule="case = one classification query (ign), one scripted schedule of synthetic executions through speculative_execution::execute (spec), or one scripted plan through run_request_no_side_effects (gate); every distinct case line counts (each returns a value, an error kind or HANG)",
     trivial=lambda c, o: o in ("bad-case",),
     out_kind=_c13_out_kind,
-    trusted=[],
-    assumptions=[],
-    partial=[],
+    trusted=[
+        "Model/Speculative.lean transcribes speculative_execution.rs:108-155 (can_be_ignored), 165-218 (execute: retries_remaining, FuturesUnordered as the list `running`, the fused sleep as `sleepArmed`, last_error, the None branch, the return test), error.rs:451-488 (can_speculative_retry), execution.rs:71-86 (SharedPlan = one popped list), 417-484 (the gate; the single-fiber arm `.await.unwrap_or(Err(EmptyPlan))` is the same machine with retries 0 and no timer), 519-644 (a fiber seen from outside)",
+        "futures::select! polls the ready branches in pseudo-random order: at one virtual instant every order of the pending wake-ups (timer, fibers) is explored by Drive/C13.lean and the implementation's line must be one of the results (echo) - on tie-free schedules the comparison is exact (start time of every execution, consumption order, result, return time; for gate: every attempt (time, target), result, return time, max attempts in flight)",
+        "tokio::time (paused clock, ms granularity) and FuturesUnordered deliver wake-ups in deadline order; Fuse<Sleep> reports terminated after firing until re-set; FuturesUnordered::is_terminated is reset by push (the empty-async_tasks-while-retries-remain path is exercised by the corpus and the grids)",
+        "the harness's oracle uses its own hand-written ignorable/definitive table (from the property statement), independent of the Lean table; harness/src/c13.rs also carries a developer self-test (`mut<k>` cases, never generated) that runs a local copy of the loop with seeded bugs through the same oracle",
+    ],
+    assumptions=[
+        "always_returns: fairness = while the call has not returned, some enabled select! branch is eventually taken (each started fiber eventually completes, the armed timer eventually fires); some_branch_enabled shows such a branch exists in every reachable state; retry_interval is finite",
+        "distinct_targets / outstanding_attempts_distinct: the plan itself has no duplicates (C05)",
+    ],
+    partial=[
+        "tie resolution of futures::select! is nondeterministic: checked by membership, not equality, on schedules with simultaneous events",
+        "end-to-end (Session, pools, sockets, mock-node delays) not built: the gate is exercised through verif_hooks::exec::run_request (the real run_request_no_side_effects with synthetic targets)",
+    ],
     shrink=dict(head_words=3, sep=" "),
     chunk=6000,
 )
@@ -293,5 +306,27 @@ PROPS["C19"] = dict(
         "the differential run drives the channel at poll granularity only (it cannot preempt inside modify/recv); the finer interleavings are covered by the theorems under the Notify/SC assumptions and sampled by the 2-thread stress cases",
         "end-to-end Session::refresh_metadata against a mock cluster (DESIGN X, thorough) is not part of this check",
     ],
+    shrink=dict(head_words=1, sep=";"),
+)
+
+PROPS["C04"] = dict(
+    level_text="Theorems (Props/C04.lean) prove for every token ring sorted by token (duplicate tokens allowed), every node placement (datacenter, rack, rack-less and datacenter-less nodes, vnodes), every token, every replication factor (0 .. above the node count) and every set S of precomputed keyspace strategies: the driver's SimpleStrategy walk is the first RF distinct nodes clockwise (simple_eq_spec); its NTS iterator (replicas_left / used_racks / acceptable_repeats) computes the stated per-datacenter rack rule (nts_eq_spec) and yields exactly min(RF, nodes) replicas (nts_len); the prefix properties behind the precomputed lists (simple_prefix, nts_prefix up to the rack count) and the snap of a token to its ring member (ringRange_snap); the locator's answer (compressed list / per-RF list / global max-RF list with prefix lookup / on-the-fly fallback) equals the on-the-fly walk for every strategy whether or not it was precomputed (precomputed_eq_onthefly*); restricting to a datacenter equals filtering the unrestricted answer (dc_restrict_eq_filter_*); and for every replica set len = |iter|, choose(i) = iter[i], the ring-ordered view is a permutation of iter and a subsequence of the distinct nodes clockwise from the token (views_agree). The model is tied to routing/locator/*.rs and cluster/state.rs by a differential run through ClusterState::new (hook cluster_from_topology) with a brute-force oracle of the two placement rules.",
+    level_note="Trusted: Lean kernel + {propext, Classical.choice, Quot.sound}; hand-written models Model/Ring.lean, Model/Replicas.lean (tie = differential harness: exhaustive small universe + random topologies, every view of ReplicaSet, get_token_endpoints). Agreement with the servers' placement is by the rule in the property statement (specSimple / specNtsDc). Tablets are C15. Shards of the returned (node, shard) pairs are not compared (pool-less nodes: C11/C12).",
+    lean_modules=["ScyllaVerif.Props.C04"],
+    rule="case = (topology, precomputed keyspace strategies, queried strategy, datacenter restriction, token); distinct case lines whose replica set is non-empty count as non-trivial",
+    trivial=lambda c, o: o.startswith("len=0 ") or o in ("bad-case", "PANIC"),
+    out_kind=lambda o: "bad-case" if not o.startswith("len=") else (lambda f: ("len=%s" % (f[0][4:] if int(f[0][4:]) < 5 else "5+")) + (" ord!=iter" if f[1][5:] != f[3][4:] else ""))(o.split(" ")),
+    trusted=[
+        "Model/Ring.lean transcribes token_ring.rs:15-60 (partition_point on a sorted slice = index of the first token >= tok), itertools unique (first occurrence wins), Token::new; Model/Replicas.lean transcribes replication_info.rs:62-202, precomputed_replicas.rs:80-210, locator/mod.rs:62-271, 314-434, 436-589, 694-935 (ReplicaSetIterator::nth / size_hint are not modelled: nth is checked by the harness oracle against the iteration), cluster/state.rs:504-530",
+        "HashMap<String, usize> of NTS = association list with distinct keys; HashMap/BTreeSet/HashSet iteration orders are irrelevant where the code uses them (sums, maxima, set membership) - datacenter and rack names are abstracted to numbers (only compared for equality)",
+        "std: stable sort_by_key, slice::partition_point on a partitioned slice; rand 0.9 random_range(0..len) = (u32 * len) >> 32 (the harness scripts the RNG to sweep every index); node identity = host_id",
+    ],
+    assumptions=[
+        "the ring is sorted by token (established by TokenRing::new: ring_sorted); NTS datacenter keys are distinct (a HashMap); no other hypothesis - in particular none about duplicate tokens since the repair ad6cb90",
+    ],
+    partial=[
+        "ReplicaSetIterator::nth and size_hint, choose_filtered's fallback through IteratorRandom::choose, and the (node, shard) pairing are outside the model; the harness oracle checks nth(k) = k-th iterated replica and that choose_filtered respects its predicate",
+    ],
+    chunk=3000,
     shrink=dict(head_words=1, sep=";"),
 )
